@@ -199,6 +199,66 @@ def task_field(a, env):
     return r
 
 
+def seq_case(fam, p, mcs, xs):
+    """one process, one history: classes over the SAME prime with DIFFERENT moduli are created and
+    used one after the other (A, B, A again): products, inverses and powers against the model.
+    Fresh class objects every time (no harness cache): what the library keeps per (prime, degree)
+    must not leak from one modulus to the other."""
+    m = lib.fields_mod(fam)
+    out = []
+    for step, mc in enumerate(list(mcs) + [mcs[0]]):
+        mc = tuple(mc)
+        base = m.FQ2 if len(mc) == 2 else m.FQ12
+        attr = "FQ2_MODULUS_COEFFS" if len(mc) == 2 else "FQ12_MODULUS_COEFFS"
+        cls = type("Seq_%s_%d_%d" % (fam, p, step), (base,), {"field_modulus": p, attr: mc})
+        cfg = lib.Cfg(fam, p, mc, cls=cls)
+        F = cfg.F
+        for xm in xs:
+            xm = tuple(xm)[:len(mc)] + (0,) * max(0, len(mc) - len(xm))
+            for ym in xs[:3]:
+                ym = tuple(ym)[:len(mc)] + (0,) * max(0, len(mc) - len(ym))
+                got = fl.run_op(cfg, "mul", cfg.lib(xm), cfg.lib(ym))
+                if got != ("ok", F.mul(xm, ym)):
+                    out.append((step, mc, "mul", [xm, ym], ("ok", F.mul(xm, ym)), got))
+            if not F.is_zero(xm):
+                got = fl.run_op(cfg, "inv", cfg.lib(xm))
+                if got != ("ok", F.inv(xm)):
+                    out.append((step, mc, "inv", [xm], ("ok", F.inv(xm)), got))
+            got = fl.run_op(cfg, "pow", cfg.lib(xm), 5)
+            if got != ("ok", F.pow(xm, 5)):
+                out.append((step, mc, "pow", [xm], ("ok", F.pow(xm, 5)), got))
+    return out
+
+
+def task_moduli_seq(a, env):
+    fam, p = a["fam"], a["p"]
+    r = R("moduli-sequences:%s" % fam)
+    xs = a["xs"]
+    for pair in a["pairs"]:
+        bad = seq_case(fam, p, pair, xs)
+        r.ev += 3 * len(xs) * 3
+        r.transitions += 3
+        r.dk.add((p, tuple(map(tuple, pair))))
+        for (step, mc, op, args, exp, got) in bad[:1]:
+            r.viol("C08:%s:FQ%d:modulus-sequence:%s" % (fam, len(mc), op), ME + ":replay_seq",
+                   {"fam": fam, "p": p, "pair": [list(m) for m in pair], "xs": xs}, exp, got,
+                   note="step %d (modulus %s) of the sequence A, B, A" % (step, list(mc)))
+    r.states = len(a["pairs"])
+    r.traces = len(a["pairs"])
+    if a.get("sample"):
+        r.sample({"family": fam, "p": p, "sequence": "class(mc A) -> class(mc B) -> class(mc A)", "pairs": len(a["pairs"]),
+                  "first": a["pairs"][0]})
+    return r
+
+
+def replay_seq(a):
+    bad = seq_case(a["fam"], a["p"], [tuple(m) for m in a["pair"]], a["xs"])
+    if not bad:
+        return None
+    step, mc, op, args, exp, got = bad[0]
+    return {"step": step, "modulus": list(mc), "op": op, "args": args, "expected": exp, "observed": got}
+
+
 def composite(cfg, op, args):
     """the composite (library-only) assertions; returns True if they hold"""
     xm = fl.el_from(cfg, args["x"])
@@ -334,7 +394,7 @@ def task_full(a, env):
                 check("pow", xm, n, "exp")
     r.dn += len(els)
     # int operands
-    ks = [0, 1, -1, p, p + 1, -p - 1, 2 * p + 3, 2 ** 400]
+    ks = [0, 1, -1, p, p + 1, -p - 1, 2 * p + 3, 2 ** 400, -p, 2 * p, p * p, -3 * p]
     int_ops = (["add", "sub", "mul", "div", "radd", "rsub", "rmul", "rdiv"] if cfg.mc is None
                else ["mul", "div", "rmul"])
     for xm in els[:12]:
@@ -433,6 +493,20 @@ def run(ctx):
                 spec.update({"fam": fam, "p": p, "mc": list(mc), "Tcap": 5})
                 tasks.append(("field", spec))
     ctx.bounds["fq12_moduli"] = {str(p): [list(m) for m in v] for p, v in d12.items()}
+    # histories: two classes over the same prime with different moduli in one process
+    for fam in ("ref", "opt"):
+        for p in ([3, 5, 7] if ctx.quick else [3, 5, 7, 11]):
+            mods = [list(m) for m in fl.quadratics(p)]
+            pairs = [[a, b] for a in mods for b in mods if a != b]
+            if ctx.quick and len(pairs) > 60:
+                pairs = pairs[::len(pairs) // 60]
+            xs = [[0, 1], [1, 1], [2, p - 1], [p - 1, 3 % p]]
+            for i in range(0, len(pairs), 30):
+                tasks.append(("moduli_seq", {"fam": fam, "p": p, "pairs": pairs[i:i + 30], "xs": xs, "sample": i == 0}))
+        for p in (2, 3):
+            a12, b12 = [list(m) for m in d12[p]]
+            xs = [[0, 1] + [0] * 10, [1] * 12, [1, 0, 1, 0, 0, 1] + [0] * 5 + [1]]
+            tasks.append(("moduli_seq", {"fam": fam, "p": p, "pairs": [[a12, b12], [b12, a12]], "xs": xs}))
     full = []
     for curve in ("bn128", "bls12_381"):
         for grp in ("E12", "E2", "E1"):
